@@ -18,7 +18,7 @@ for pid in ids:
         'evidence_file': '/verif/evidence/%s.json' % pid,
         'replay_cmd_template': './check %s --replay {path}' % pid,
         'engine': 'coq-proof+correspondence',
-        'level_claimed': {'category': 'proof', 'text': c['level_text'], 'design_ref': c.get('design_ref', 'DESIGN.md section 6 (%s)' % pid)},
+        'level_claimed': {'category': 'proof', 'text': c['level_text'], 'design_ref': c.get('design_ref', 'DESIGN.md section 0.2 (as built) and section 6 (%s, design-time plan)' % pid)},
         'level_note': c['level_note'],
         'technique': c.get('technique', 'machine-checked proof in Coq 8.16 about a model tied to the source by translator and differential correspondence'),
     })
